@@ -769,9 +769,11 @@ def _norm_simple(stmts, ctx):
             if isinstance(st, ast.Assign) and empty_list and isinstance(nxt, ast.For) and not nxt.orelse \
                     and len(nxt.body) == 1 and isinstance(nxt.body[0], ast.If) and not nxt.body[0].orelse \
                     and len(nxt.body[0].body) == 1 and isinstance(nxt.body[0].body[0], ast.Expr) and not ctx.get("final"):
-                # for x in S: if P: L.append(E)   ->  the filter of a comprehension
-                cond_ifs = [nxt.body[0].test]
-                nxt = ast.For(target=nxt.target, iter=nxt.iter, body=nxt.body[0].body, orelse=[], lineno=nxt.lineno, col_offset=0)
+                # for x in S: if P: L.append(E)   ->  the filter of a comprehension (P must not look at L itself)
+                if isinstance(st.targets[0], ast.Name) and not _count_loads(nxt.body[0].test, st.targets[0].id):
+                    cond_ifs = [nxt.body[0].test]
+                    nxt = ast.For(target=nxt.target, iter=nxt.iter, body=nxt.body[0].body, orelse=[], lineno=nxt.lineno,
+                                  col_offset=0)
             if isinstance(st, ast.Assign) and len(st.targets) == 1 and isinstance(st.targets[0], ast.Name) \
                     and empty_list and isinstance(nxt, ast.For) \
                     and not nxt.orelse and len(nxt.body) == 1 and isinstance(nxt.body[0], ast.Expr) \
